@@ -13,7 +13,7 @@ LEVEL_TEXT = ("static analysis by finite-domain abstract interpretation of call.
               "class equals the stated one, the pure-path sibling agrees, and the PAR filters read the keys of their own sex "
               "chromosome; (D3) the rescaled log2 is log2(max(n/ploidy,0.001)) + 1 exactly on the classes with r = ploidy//2; (D4) "
               "the value stored in `cn` by do_call is round()ed, integer and has interval lower bound >= 0 for every real log2 "
-              "and purity in (0,1]; (D5) sex / PAR / ploidy / purity flags reach same-role parameters at every call site. "
+              "and purity in (0,1], and without purity it is round(r*2^log2) row by row also on a literal table whose chromosomes are interleaved; (D5) sex / PAR / ploidy / purity flags reach same-role parameters at every call site. "
               "Exact over the rationals; IEEE rounding error is not modelled.")
 TECHNIQUE = "abstract interpretation over finite row-class / flag domains with exact rational terms and intervals; role-flow lint"
 
